@@ -181,6 +181,12 @@ func c13Check(t tb, bc behContext) {
 	for _, g := range d.Getters() {
 		mustOf[g.Getter] = g.Must
 	}
+	inconvertible := map[string]bool{} // services whose object cannot be converted to the declared getter type (hand-built members only)
+	for _, l := range bc.M.Labels {
+		if strings.HasPrefix(l, "inconvertible:") {
+			inconvertible[strings.TrimPrefix(l, "inconvertible:")] = true
+		}
+	}
 	res := bc.Cont.Out.Res
 	if len(res) != len(bc.M.Script.Ops) {
 		violation(t, "probe-truncated", "probe returned fewer results than operations", bc.One)
@@ -212,6 +218,15 @@ func c13Check(t tb, bc behContext) {
 			if exp.Skip {
 				continue
 			}
+			if inconvertible[op.Tag] && exp.Err == "" {
+				// Get succeeds, but the object cannot be converted to the declared type: the getter reports that
+				suffix := "(): "
+				if op.Ctx != "" {
+					suffix = "InContext(): "
+				}
+				exp = ref.Exp{Err: "." + op.ID + suffix}
+				col.Label("getter-conversion-error-path")
+			}
 			if err := matchRes(exp, got, b); err != nil {
 				violation(t, "getter:"+classifyMismatch(err.Error()), "getter "+op.ID+": "+err.Error(), bc.One)
 				return
@@ -237,7 +252,7 @@ func c13Check(t tb, bc behContext) {
 			if exp.Skip {
 				continue
 			}
-			if exp.Err != "" {
+			if exp.Err != "" || inconvertible[op.Tag] {
 				exp = ref.Exp{Panic: true}
 				col.Label("must-getter-panic-path")
 			}
@@ -385,6 +400,26 @@ func TestC13(t *testing.T) {
 		}
 		behBatch(rt, c, c13NonTrivial, c13Check, nil)
 	})
+	// (2b) hand-built: the declared getter type does not fit the object (Get succeeds, the getter must report the failed
+	// conversion and the must-getters must panic), next to fitting controls; with the default names and with own names
+	if ev.Mine(1) {
+		var c behCase
+		for v := 0; v < 2; v++ {
+			conf := cfg.Config{Meta: cfg.Meta{Pkg: sp("app")}, Services: []cfg.Service{
+				{Name: "v", Ctor: sp("fx/lib.NewVal"), Getter: sp("GetV"), Type: sp("*fx/lib.Obj"), Must: bp(true)},
+				{Name: "o", Ctor: sp("fx/lib.NewObj"), Getter: sp("GetO"), Type: sp("fx/lib.Val"), Must: bp(true)},
+				{Name: "x", Ctor: sp("fx/lib.NewObj"), Getter: sp("GetX"), Type: sp("*fx/libx.Obj"), Must: bp(true)}, // the same type name in another package
+				{Name: "ok", Ctor: sp("fx/lib.NewObj"), Getter: sp("GetOk"), Type: sp("*fx/lib.Obj"), Must: bp(true)},
+				{Name: "any", Ctor: sp("fx/lib.NewVal"), Getter: sp("GetAny"), Must: bp(true)},
+			}}
+			if v == 1 {
+				conf.Meta.Type, conf.Meta.Ctor = sp("Box"), sp("NewBox")
+				conf.Services[0].Scope, conf.Services[1].Scope = sp("non_shared"), sp("contextual")
+			}
+			c.Members = append(c.Members, behMember{Files: []cfg.Config{conf}, Script: c13Script(conf), Labels: []string{"hand-built:getter-type-does-not-fit", "inconvertible:v", "inconvertible:o", "inconvertible:x"}})
+		}
+		behBatch(t, c, c13NonTrivial, c13Check, nil)
+	}
 	// (3) documented default names: package main / Gontainer / NewGontainer (linked one by one)
 	for i := 0; i < pick(1, 4); i++ {
 		if !ev.Mine(i) {
